@@ -57,5 +57,8 @@ package telemetry
 //@   at call WriteFile#1: assert (mode == "on" || mode == "off" || mode == "local") && string(arg1) == mode + " " + asofTime.UTC().Format("2006-01-02")
 //@   modifies $fsops
 
+// The layout of the telemetry directory: counter files and reports in local,
+// acknowledged reports in upload, the mode file called mode, all directly below dir.
 //@ contract NewDir
+//@   ensures result.dir == dir && result.local == filepath.Join(dir, "local") && result.upload == filepath.Join(dir, "upload") && result.debug == filepath.Join(dir, "debug") && result.modefile == filepath.Join(dir, "mode")
 //@   modifies nothing
